@@ -24,7 +24,8 @@ Everything runs in `Except Fault` over an explicit heap:
 The model transcribes the code AS FIXED in the verification worktree (known_findings.d/C18.json):
 `C18:name0-placeholder` (`pDevice2!=pDevice`), `C18:conf-info-sizes` (size query of `GetVarStr` with a null
 buffer reports the needed size), `C18:conf-info-stale-pointers` (`InitConfigurationInformation` recomputes the
-interior pointers when it keeps its block), `C18:prodinfo-na-defaults`.
+interior pointers when it keeps its block), `C18:prodinfo-na-defaults`, and the request pacing as of /repo f104fb3
+(`C13:devlist-zero-sentinel`).
 
 Integer types: `uint8_t` counters stay below their limits (20 / 4 requests, ≤ 74 PGNs), `uint16_t`/`size_t`
 sizes are ≤ 3·335 - all `Nat` without wrap. `unsigned long` is 64 bit (LP64), `N2kMillis()` 32 bit.
@@ -657,9 +658,6 @@ def handlePGNList (e : Env) (s : State) (m : Msg) : M State :=
 
 /-! ## request sequencing (`HandleOther`) -/
 
-/-- 64-bit `unsigned long` subtraction -/
-def sub64 (a b : Nat) : Nat := (a % M64 + M64 - b % M64) % M64
-
 inductive Kind where
   | prod | conf | pgns
   deriving DecidableEq, Repr
@@ -676,15 +674,24 @@ def should (k : Kind) (d : Device) : Bool :=
   | .conf => !d.confLoaded && decide (d.nConfIRequested < 4)
   | .pgns => (d.tx.isNone || d.rx.isNone) && decide (d.nPGNsRequested < 4)
 
-/-- `ReadyForRequest…` -/
-def ready (e : Env) (k : Kind) (d : Device) : Bool :=
+/-- the request counter `n…Requested` / the time stamp `…Requested` of a kind -/
+def nRequested (k : Kind) (d : Device) : Nat :=
   match k with
-  | .prod => should k d && hasElapsed d.prodIRequested 1000 (millis32 e.now) &&
-             hasElapsed d.createTime 1000 (millis32 e.now)
-  | .conf => should k d && decide (sub64 (millis32 e.now) d.confIRequested > 1000) &&
-             decide (sub64 (millis32 e.now) d.createTime > 1000)
-  | .pgns => should k d && hasElapsed d.pgnsRequested 1000 (millis32 e.now) &&
-             hasElapsed d.createTime 1000 (millis32 e.now)
+  | .prod => d.nProdIRequested
+  | .conf => d.nConfIRequested
+  | .pgns => d.nPGNsRequested
+
+def lastRequested (k : Kind) (d : Device) : Nat :=
+  match k with
+  | .prod => d.prodIRequested
+  | .conf => d.confIRequested
+  | .pgns => d.pgnsRequested
+
+/-- `ReadyForRequest…` (as of /repo f104fb3: the counter, not the time stamp value 0, says "never requested";
+    all three kinds use `N2kHasElapsed`; the three periods and the first-request delay are 1000 ms) -/
+def ready (e : Env) (k : Kind) (d : Device) : Bool :=
+  should k d && (nRequested k d == 0 || hasElapsed (lastRequested k d) 1000 (millis32 e.now)) &&
+  hasElapsed d.createTime 1000 (millis32 e.now)
 
 /-- `Set…Requested()` -/
 def markRequested (e : Env) (k : Kind) (d : Device) : Device :=
